@@ -75,6 +75,22 @@ pub struct CampaignResult {
     pub digest_of_digests: u64,
 }
 
+fn resident_mb() -> u64 {
+    std::fs::read_to_string("/proc/self/statm")
+        .ok()
+        .and_then(|s| s.split_whitespace().nth(1).and_then(|x| x.parse::<u64>().ok()))
+        .unwrap_or(0)
+        * 4
+        / 1024
+}
+
+fn max_resident_mb() -> u64 {
+    std::env::var("KOTOSIM_MAX_RSS_MB")
+        .ok()
+        .and_then(|s| s.parse().ok())
+        .unwrap_or(16_000)
+}
+
 pub fn run_seed(base: u64, engine: &str, index: u64) -> u64 {
     splitmix64(mix(base ^ hash_str(engine), index))
 }
@@ -164,6 +180,19 @@ where
                             break;
                         }
                         if cfg.max_seconds > 0.0 && start.elapsed().as_secs_f64() > cfg.max_seconds {
+                            break;
+                        }
+                        // a campaign that keeps growing is a harness problem (e.g. a generated
+                        // construct that koto's reference counting never frees): say so instead
+                        // of being killed by the kernel
+                        if i % 512 == 0 && resident_mb() > max_resident_mb() {
+                            let mut s = shared.lock().unwrap();
+                            s.harness_error.get_or_insert(format!(
+                                "resident memory above {} MB after {} runs (KOTOSIM_MAX_RSS_MB): the campaign leaks",
+                                max_resident_mb(),
+                                i
+                            ));
+                            stop.store(true, Ordering::Relaxed);
                             break;
                         }
                         let rs = run_seed(cfg.base_seed, cfg.engine, i);
